@@ -515,6 +515,48 @@ func main() {
 		res.AddSub(sub)
 		sig.Cleanup()
 	}
+	// real web clients (rtpconn.webClient) against statistics and moderation:
+	// the client lock c.mu and the group lock g.mu are taken in both packages
+	if core.Want("web/") {
+		sig.Scheduled = true
+		offer := func(w *sig.World) {
+			w.Send(1, sig.Msg{"type": "offer", "id": "s1", "label": "camera", "source": "c1", "username": "bob", "sdp": sig.OfferSDP("a")})
+		}
+		two := func(w *sig.World) {
+			w.Send(0, sig.Join("g", "alice", "pa"))
+			w.Send(1, sig.Join("g", "bob", "pb"))
+		}
+		drain := func(w *sig.World, i int) {
+			for n := 0; n < 10 && w.Clients[i].V.Signalled(); n++ {
+				w.Drain(i)
+			}
+		}
+		none := func(w *sig.World) (string, *core.Violation) { return "", nil }
+		for _, rp := range []sig.RaceProgram{
+			{Name: "web/stats-vs-offer", Clients: 2, MaxPreempt: core.Pick(2, 3), Groups: map[string]string{"g": descPlain}, Setup: two,
+				Names:   []string{"stats", "c1:offer"},
+				Threads: []func(w *sig.World){func(w *sig.World) { stats.GetGroups() }, offer}, Final: none},
+			{Name: "web/stats-vs-close-stream", Clients: 2, MaxPreempt: core.Pick(2, 3), Groups: map[string]string{"g": descPlain},
+				Setup: func(w *sig.World) { two(w); offer(w) },
+				Names: []string{"stats", "c1:close"},
+				Threads: []func(w *sig.World){func(w *sig.World) { stats.GetGroups() },
+					func(w *sig.World) { w.Send(1, sig.Msg{"type": "close", "id": "s1", "source": "c1"}) }}, Final: none},
+			{Name: "web/kick-vs-offer", Clients: 2, MaxPreempt: core.Pick(2, 3), Groups: map[string]string{"g": descPlain}, Setup: two,
+				Names: []string{"c0:kick c1", "c1:offer+drain"},
+				Threads: []func(w *sig.World){
+					func(w *sig.World) {
+						w.Send(0, sig.Msg{"type": "useraction", "kind": "kick", "source": "c0", "username": "alice", "dest": "c1", "value": "bye"})
+					},
+					func(w *sig.World) { offer(w); drain(w, 1) }}, Final: none},
+		} {
+			if !core.Want(rp.Name) {
+				continue
+			}
+			sub := vrt.Explore(rp.Program("C13/signalling"), res, o.Shard, o.Shards)
+			res.AddSub(sub)
+		}
+		sig.Cleanup()
+	}
 	for i, p := range programs() {
 		if !core.Want(p.name) {
 			continue
